@@ -84,9 +84,11 @@ def _vec(c, k, pos=False):
 
 @entry()
 def e_copy(c):
-    kind = _pick(c, ['tt', 'tt', 'array', 'number', 'none'])
+    kind = _pick(c, ['tt', 'tt', 'array', 'number', 'none', '0d'])
     if kind == 'tt':
         return Call('copy', teneva.copy, [c.tt()])
+    if kind == '0d':
+        return Call('copy', teneva.copy, [np.array(float(c.rng.standard_normal()))])       # a zero-dimensional array is an array
     if kind == 'array':
         return Call('copy', teneva.copy, [c.own(c.rng.standard_normal((3, 2)))])
     if kind == 'number':
@@ -324,11 +326,23 @@ def e_truncate(c):
 def e_const(c):
     kw = {'v': float(_pick(c, [1.0, -2.5, 0.0, 1e-3]))}
     if c.rng.random() < 0.5:
-        kw['I_zero'] = c.own([[int(x) for x in c.ind()] for _ in range(int(c.rng.integers(1, 3)))])
+        rows = [[int(x) for x in c.ind()] for _ in range(int(c.rng.integers(1, 3)))]
+        i_nz = None
         if c.rng.random() < 0.5:
-            i_nz = [int(x) for x in c.ind()]
+            cand = [int(x) for x in c.ind()]
             # keep the request satisfiable: differ from every zero index in at least one position
-            if all(any(a != b for a, b in zip(z, i_nz)) for z in kw['I_zero']):
+            if all(any(a != b for a, b in zip(z, cand)) for z in rows):
+                i_nz = cand
+        if c.rng.random() < 0.4:
+            # numpy-style indices counted from the end, passed as int64 arrays
+            k = int(c.rng.integers(0, len(c.n)))
+            rows = [[x - c.n[j] if (j == k and c.n[j] > 1) else x for j, x in enumerate(z)] for z in rows]
+            kw['I_zero'] = c.own(np.array(rows, dtype=int))
+            if i_nz is not None:
+                kw['i_non_zero'] = c.own(np.array([x - c.n[j] if j != k else x for j, x in enumerate(i_nz)], dtype=int))
+        else:
+            kw['I_zero'] = c.own(rows)
+            if i_nz is not None:
                 kw['i_non_zero'] = c.own(i_nz)
     return Call('const', teneva.const, [_nlist(c)], kw, may_fail=True)
 
@@ -338,6 +352,8 @@ def e_delta(c):
     i = c.ind()
     if c.rng.random() < 0.4:
         i = c.own([int(x) for x in i])
+    elif c.rng.random() < 0.3:
+        i = c.own(np.array([int(x) - c.n[j] for j, x in enumerate(i)], dtype=int))      # counted from the end
     return Call('delta', teneva.delta, [_nlist(c), i], {'v': float(c.rng.standard_normal())})
 
 
